@@ -45,7 +45,8 @@ AUDIT = "PorepyVerif/C15/Audit.lean"
 DRIVER = "PorepyVerif/C15/Driver.lean"
 N = {"quick": 24, "thorough": 500}
 TOL = 1e-8
-RULE = ("grids: 2-D Cartesian (nodes perturbed by 0 / 1/8 / 1/4 of the mesh size, boundary nodes too), structured and Delaunay triangles; "
+RULE = ("grids: 2-D Cartesian (nodes perturbed by 0 / 1/8 / 1/4 of the mesh size, boundary nodes too), structured and Delaunay triangles, "
+        "mixed grids of quadrilaterals and triangles (cells with different node counts); "
         "3-D Cartesian (plain anisotropic, sheared by a dyadic affine map, or node-perturbed so that faces become non-planar) and structured "
         "tetrahedra with perturbed nodes; 1..4 cells per direction incl. single cells and single rows; all node coordinates dyadic. "
         "All mechanical boundary faces Dirichlet, data from u = A x + b (A general / symmetric / skew / trace-free / zero, dyadic). "
@@ -107,6 +108,8 @@ def build_grid(gs):
             seen.add(p)
             pts.append((phys[0] * p[0] / 16, phys[1] * p[1] / 16))
         g = pp.TriangleGrid(np.array(pts).T)
+    elif kind == "mixed":
+        g = _mixed_grid(n, phys, gs.get("split", []))
     else:
         raise ValueError(kind)
     pert = float(_F(gs.get("pert", "0")))
@@ -121,6 +124,49 @@ def build_grid(gs):
         g.nodes[:d] = S @ g.nodes[:d]
     g.compute_geometry()
     return g
+
+
+def _mixed_grid(n, phys, split):
+    """2-D grid of quadrilaterals in which the listed Cartesian cells are cut into two triangles by a diagonal
+    (cells with 3 and with 4 nodes in one grid), built directly from its topology."""
+    import porepy as pp
+    import scipy.sparse as sps
+
+    nx, ny = n
+    xs = [phys[0] * i / nx for i in range(nx + 1)]
+    ys = [phys[1] * j / ny for j in range(ny + 1)]
+    nid = lambda i, j: j * (nx + 1) + i
+    nodes = np.zeros((3, (nx + 1) * (ny + 1)))
+    for j in range(ny + 1):
+        for i in range(nx + 1):
+            nodes[0, nid(i, j)], nodes[1, nid(i, j)] = xs[i], ys[j]
+    polys = []
+    for j in range(ny):
+        for i in range(nx):
+            a, b, c, d_ = nid(i, j), nid(i + 1, j), nid(i + 1, j + 1), nid(i, j + 1)
+            if (j * nx + i) in split:
+                if (i + j) % 2 == 0:
+                    polys += [[a, b, c], [a, c, d_]]
+                else:
+                    polys += [[a, b, d_], [b, c, d_]]
+            else:
+                polys.append([a, b, c, d_])
+    edges, fn_rows, cf_r, cf_c, cf_v = {}, [], [], [], []
+    for ci, poly in enumerate(polys):
+        for k in range(len(poly)):
+            e = tuple(sorted((poly[k], poly[(k + 1) % len(poly)])))
+            first = e not in edges
+            if first:
+                edges[e] = len(edges)
+                fn_rows.append(e)
+            cf_r.append(edges[e])
+            cf_c.append(ci)
+            cf_v.append(1 if first else -1)
+    nf = len(edges)
+    fn = sps.coo_matrix((np.ones(2 * nf, dtype=bool), (np.array(fn_rows).ravel(), np.repeat(np.arange(nf), 2))),
+                        shape=(nodes.shape[1], nf)).tocsc()
+    cf = sps.coo_matrix((np.array(cf_v), (np.array(cf_r), np.array(cf_c))), shape=(nf, len(polys))).tocsc()
+    return pp.Grid(2, nodes, fn, cf, "MixedPolygonGrid")
 
 
 def _valid_grid(gs, rng):
@@ -267,7 +313,7 @@ def gen_case(rng, tier):
     dim = 2 if rng.random() < 0.55 else 3
     gs = {}
     if dim == 2:
-        kind = rng.choice(["cart", "cart", "tri", "deltri"])
+        kind = rng.choice(["cart", "cart", "tri", "deltri", "mixed"])
         n = [rng.choice([1, 2, 2, 3, 3, 4] + ([5, 6] if big else [])), rng.choice([1, 2, 2, 3] + ([4, 5] if big else []))]
         if kind == "tri":
             n = [min(n[0], 3 if not big else 4), min(n[1], 2 if not big else 3)]
@@ -281,6 +327,10 @@ def gen_case(rng, tier):
     if kind == "deltri":
         gs["npts"] = rng.randint(0, 5 if not big else 12)
         gs["n"] = [1, 1]
+    elif kind == "mixed":
+        ncart = n[0] * n[1]
+        gs["split"] = sorted(rng.sample(range(ncart), rng.randint(1, max(1, (ncart + 1) // 2))))
+        gs["pert"] = str(rng.choice([Fraction(0), Fraction(1, 8), Fraction(1, 4)]))
     elif dim == 3 and kind == "cart":
         var = rng.choice(["plain", "plain", "shear", "shear", "pert"])
         if var == "shear":
@@ -316,10 +366,14 @@ def gen_case(rng, tier):
             "eta": rng.choice([None, None, None, None, "0", "1/4", "1/2"]), "inverter": rng.choice(["python", "python", "numba"]),
             "nsub": None, "spec_cells": None}
     r = rng.random()
-    if r < 0.15 and g.num_cells >= 4:
+    if r < 0.2 and g.num_cells >= 4:
         case["nsub"] = rng.choice([2, 3])
-    elif r < 0.3 and g.num_cells >= 4:
+    elif r < 0.35 and g.num_cells >= 4:
         case["spec_cells"] = sorted(rng.sample(range(g.num_cells), rng.choice([1, 1, 2])))
+    if (case["nsub"] or case["spec_cells"] is not None) and rng.random() < 0.6:
+        # cell-wise coefficients exercise the restriction of the coupling tensors to subproblems / active cells
+        vals = rng.sample([Fraction(1, 4), Fraction(1, 2), Fraction(1), Fraction(3, 2), Fraction(2), Fraction(4)], rng.randint(3, 5))
+        case["keys"][0] = {"name": "k0", "mode": "hetero", "vals": [str(v) for v in vals], "mul": rng.choice([1, 1, 2, 3])}
     return case
 
 
@@ -664,6 +718,8 @@ def compare(impl, model, case):
 def _ncells(gs):
     if gs["kind"] == "deltri":
         return 2 + 2 * gs.get("npts", 0)
+    if gs["kind"] == "mixed":
+        return int(np.prod(gs["n"])) + len(gs.get("split", []))
     return int(np.prod(gs["n"])) * {"cart": 1, "tri": 2, "tet": 6}[gs["kind"]]
 
 
@@ -695,12 +751,15 @@ def shrink_candidates(case):
         yield dict(case, inverter="python")
     if case.get("spec_cells") is None:
         for k in range(len(gs["n"])):
-            if gs["n"][k] > 1 and gs["kind"] != "deltri":
+            if gs["n"][k] > 1 and gs["kind"] not in ("deltri", "mixed"):
                 n2 = list(gs["n"])
                 n2[k] -= 1
                 yield dict(case, nsub=None, grid=dict(gs, n=n2, phys=[str(_F(p_) * n2[j] / gs["n"][j]) for j, p_ in enumerate(gs["phys"])]))
         if gs["kind"] == "deltri" and gs.get("npts", 0) > 0:
             yield dict(case, nsub=None, grid=dict(gs, npts=gs["npts"] - 1))
+        if gs["kind"] == "mixed" and len(gs.get("split", [])) > 1:
+            for q in gs["split"]:
+                yield dict(case, nsub=None, grid=dict(gs, split=[x for x in gs["split"] if x != q]))
     for key_i, key in enumerate(case["keys"]):
         if key["mode"] != "scalar":
             ks = list(case["keys"])
